@@ -285,6 +285,22 @@ def _gen_rpow(rng, D, P, tier):
     return [S(rng.choice([2.0, 0.5, 3, 1.5])), U(rand_coeffs(rng, (D, P) + s, -1, 1))]
 
 
+def _gen_rpow_arr(rng, D, P, tier):
+    """constant ARRAY of (positive) bases ** polynomial: same shape, lower rank, and higher rank than the polynomial (also with a
+    leading axis as long as the number of directions or of coefficients, which must not be confused with those axes)"""
+    s = _shape(rng, tier)
+    how = rng.choice(['same', 'lower', 'higher', 'higherP', 'higherD', 'higherP'])
+    rs = {'same': s, 'lower': s[rng.randint(0, len(s)):] if s else (), 'higher': (rng.randint(2, 3),) + s, 'higherP': (P,) + s, 'higherD': (D,) + s}[how]
+    if rs == ():
+        rs = (P,)
+    n = int(np.prod(rs))
+    r = np.array([rng.choice([2.0, 0.5, 3.0, 1.5, 1.0]) for _ in range(n)]).reshape(rs)
+    return [A(r), U(rand_coeffs(rng, (D, P) + s, -1, 1))]
+
+
+op('rpow:au', _gen_rpow_arr, lambda a: a[0] ** a[1], lambda z: z[0] ** z[1], tags=('arith',))
+
+
 def _gen_powua(rng, D, P, tier):
     """polynomial ** constant array of exponents: same shape, lower rank, length-1 axes, and higher rank (also with a leading
     axis as long as the number of directions, which must not be confused with the direction axis)"""
@@ -354,9 +370,22 @@ def _pf(a, form):
 
 op('polygamma:arr', _gen_param_array, lambda a: algopy.special.polygamma(_pf(a[1].astype(int), a[3]), a[0]), lambda z: sp.polygamma(int(z[1]), z[0]), tags=('ew',))
 op('hyperu:arr', _gen_param_array, lambda a: algopy.special.hyperu(_pf(a[2], a[3]), 1.5, a[0]), lambda z: sp.hyperu(z[2], 1.5, z[0]), tags=('ew',))
-op('clip:arr', _gen_param_array, lambda a: UTPM.botched_clip(_pf(a[2] - 0.25, a[3]), _pf(a[2] + 1.0, a[3]), a[0]), None, tags=('ew',))
+op('clip:arr', _gen_param_array, lambda a: algopy.special.botched_clip(_pf(a[2] - 0.25, a[3]), _pf(a[2] + 1.0, a[3]), a[0]), None, tags=('ew',))
 
 
+def _gen_clip_bounds(rng, D, P, tier):
+    """base points exactly ON the bounds of the interval, inside and outside (forward mode keeps the higher coefficients where
+    a_min <= x_0 <= a_max, bounds included: the reverse sweep has to use the same mask)"""
+    n = rng.randint(5, 7)
+    x = rand_coeffs(rng, (D, P, n), -1, 1)
+    for p in range(P):
+        vals = [-0.5, 1.25, 0.25, -2.0, 3.0] + [rng.choice([-0.5, 1.25, 0.5]) for _ in range(n - 5)]
+        rng.shuffle(vals)
+        x[0, p] = vals
+    return [U(x)]
+
+
+op('clip:bounds', _gen_clip_bounds, lambda a: algopy.special.botched_clip(-0.5, 1.25, a[0]), lambda z: np.clip(z[0], -0.5, 1.25), tags=('ew',))
 op('rpow:su', _gen_rpow, lambda a: a[0] ** a[1], lambda z: z[0] ** z[1], tags=('arith',))
 
 
@@ -507,6 +536,22 @@ def _gen_dot(rng, D, P, tier):
 
 
 op('dot', _gen_dot, lambda a: algopy.dot(a[0], a[1]), lambda z: np.dot(z[0], z[1]), tags=('linalg',))
+
+
+def _gen_dot_rank3(rng, D, P, tier):
+    """numpy.dot with an operand of rank >= 3 (sum over the last axis of x and the second-to-last of y)"""
+    kind = rng.choice(['3m', 'm3', '33', '3v', 'v3', '3A', 'A3'])
+    k = rng.randint(1, 3)
+    sh = {'3': lambda last: (2, rng.randint(1, 3), k) if last else (2, k, rng.randint(1, 3)),
+          'm': lambda last: (rng.randint(1, 3), k) if last else (k, rng.randint(1, 3)), 'v': lambda last: (k,)}
+    sh['A'] = sh['3']
+    sx, sy = sh[kind[0]](True), sh[kind[1]](False)
+    x = U(rand_coeffs(rng, (D, P) + sx, -2, 2)) if kind[0] != 'A' else A(rand_coeffs(rng, sx, -2, 2))
+    y = U(rand_coeffs(rng, (D, P) + sy, -2, 2)) if kind[1] != 'A' else A(rand_coeffs(rng, sy, -2, 2))
+    return [x, y]
+
+
+op('dot:rank3', _gen_dot_rank3, lambda a: algopy.dot(a[0], a[1]), lambda z: np.dot(z[0], z[1]), tags=('linalg',))
 
 
 def _gen_outer(rng, D, P, tier):
